@@ -13,7 +13,10 @@ Inductive lop :=
 | LRead (unc : bool) (o : Z) (recs : list rec) (e : N)
 | LState (nw od hw : Z)
 | LClean (ttl : Z)
-| LLayout (lay : list (Z * Z * Z)).   (* (base, message count, position) per segment *)
+| LLayout (lay : list (Z * Z * Z))
+| LCleanRoll (ttl : Z) (during : list (list msg * N * list Z))   (* appends that arrive while Clean runs *)
+| LROpen (id : nat) (unc : bool) (o : Z) (ok : bool)
+| LRNext (id : nat) (recs : list rec) (e : N).   (* (base, message count, position) per segment *)
 
 Definition rec_eqb (a b : rec) : bool :=
   (r_off a =? r_off b) && (r_ts a =? r_ts b) && N.eqb (r_ep a) (r_ep b) && bytes_eqb (r_body a) (r_body b).
@@ -34,7 +37,11 @@ Definition layout_eqb (a b : Z * Z * Z) : bool :=
   let '(x1, y1, z1) := a in let '(x2, y2, z2) := b in (x1 =? x2) && (y1 =? y2) && (z1 =? z2).
 
 (* returns (new state, agrees?) *)
-Definition step (maxb : Z) (cc : bool) (lim : limits) (l : log) (o : lop) : log * bool :=
+Definition rtab := list (nat * reader).
+Fixpoint rt_get (t : rtab) (i : nat) : option reader :=
+  match t with [] => None | (j, r) :: q => if Nat.eqb i j then Some r else rt_get q i end.
+
+Definition step_log (maxb : Z) (cc : bool) (lim : limits) (l : log) (o : lop) : log * bool :=
   match o with
   | LAppend ms res offs =>
     match append maxb cc l ms with
@@ -57,17 +64,46 @@ Definition step (maxb : Z) (cc : bool) (lim : limits) (l : log) (o : lop) : log 
     (l, list_eqb rec_eqb rs recs && N.eqb (end_code en) e)
   | LState nw od hw => (l, (newest l =? nw) && (oldest l =? od) && (l_hw l =? hw))
   | LClean ttl => (clean lim ttl l, true)
+  | LCleanRoll ttl during =>
+    let n := length (l_segs l) in
+    let '(l1, ok) := fold_left (fun st a => let '(l0, ok0) := st in let '(ms, res, offs) := a in
+                                 match append maxb cc l0 ms with
+                                 | Ok (l', os) => (l', ok0 && N.eqb res 0 && list_eqb Z.eqb os offs)
+                                 | Err => (append_log maxb cc l0 ms, ok0 && N.eqb res 1)
+                                 | Panic => (l0, ok0 && N.eqb res 2)
+                                 end) during (l, true) in
+    let segs := retain lim ttl (firstn n (l_segs l1)) ++ skipn n (l_segs l1) in
+    (mkLog segs (l_hw l1) (cache_clear_earliest (l_cache l1) (match segs with [] => 0 | s :: _ => s_base s end)) (l_ro l1), ok)
   | LLayout lay => (l, list_eqb layout_eqb (map (fun s => (s_base s, s_count s, s_pos s)) (l_segs l)) lay)
+  | LROpen _ _ _ _ => (l, true)
+  | LRNext _ _ _ => (l, true)
   end.
 
-Fixpoint run_ops (maxb : Z) (cc : bool) (lim : limits) (l : log) (ops : list lop) (i : nat) : option nat :=
+Definition step (maxb : Z) (cc : bool) (lim : limits) (st : log * rtab) (o : lop) : (log * rtab) * bool :=
+  let '(l, t) := st in
+  match o with
+  | LROpen id unc s ok =>
+    match reader_open l unc s with
+    | Some r => ((l, (id, r) :: t), ok)
+    | None => ((l, t), negb ok)
+    end
+  | LRNext id recs e =>
+    match rt_get t id with
+    | None => ((l, t), false)
+    | Some r => let '(rs, en, r') := reader_drain l r in
+                ((l, (id, r') :: t), list_eqb rec_eqb rs recs && N.eqb (end_code en) e)
+    end
+  | _ => let '(l', ok) := step_log maxb cc lim l o in ((l', t), ok)
+  end.
+
+Fixpoint run_ops (maxb : Z) (cc : bool) (lim : limits) (l : log * rtab) (ops : list lop) (i : nat) : option nat :=
   match ops with
   | [] => None
   | o :: r => let '(l', ok) := step maxb cc lim l o in
               if ok then run_ops maxb cc lim l' r (S i) else Some i
   end.
 
-Definition lcase_result (c : lcase) : option nat := run_ops (lc_maxb c) (lc_cc c) (lc_lim c) new_log (lc_ops c) 0.
+Definition lcase_result (c : lcase) : option nat := run_ops (lc_maxb c) (lc_cc c) (lc_lim c) (new_log, []) (lc_ops c) 0.
 
 (* list of (case index, op index) of the first disagreement in each disagreeing case *)
 Fixpoint lcases_mismatches (cs : list lcase) (i : nat) : list (nat * nat) :=
